@@ -48,3 +48,21 @@ pub open spec fn builtins_if_present<C: ContentAddrStore>(s: UnsealedState<C>) -
     (s.pools@.contains_key(pk_mel_sym()) ==> pool_live(s.pools@[pk_mel_sym()])) && (s.pools@.contains_key(pk_mel_erg()) ==> pool_live(s.pools@[pk_mel_erg()]))
     && (s.pools@.contains_key(pk_erg_sym()) ==> pool_live(s.pools@[pk_erg_sym()]))
 }
+
+// ---- TIP-909 subsidy (apply_tip_909)
+pub open spec fn spec_tip909_reward(height: u64) -> u128 { (1u128 << 20) >> ((if height >= 950000 { (height - 950000) as u64 } else { 0u64 }) / 1_000_000u64) }
+pub open spec fn spec_tip909_fee_part(reward: u128, a: bool) -> u128 { if a { (reward - (reward >> 8)) as u128 } else { reward / 2 } }
+pub open spec fn spec_tip909_erg_part(reward: u128, a: bool) -> u128 { if a { reward >> 8 } else { (reward - reward / 2) as u128 } }
+/// swap_many(0, dx) on a pool: dx added to the right reserve (saturating), floor(dx * lefts * 995 / (rights' * 1000)) taken from the left reserve
+pub open spec fn right_fed(p0: PoolState, p1: PoolState, dx: int, out: int) -> bool {
+    let rr = if p0.rights + dx > u128::MAX { u128::MAX as int } else { p0.rights + dx };
+    out == (if (dx * p0.lefts * 995) / (rr * 1000) > u128::MAX { u128::MAX as int } else { (dx * p0.lefts * 995) / (rr * 1000) })
+    && p1.lefts as int == p0.lefts - out && p1.rights as int == rr && p1.liqs == p0.liqs && p1.lefts > 0 && p1.rights > 0
+}
+pub open spec fn tip909_applied<C: ContentAddrStore>(s: UnsealedState<C>, r: UnsealedState<C>) -> bool {
+    let reward = spec_tip909_reward(s.height.0); let a = spec_tip(s.network, s.height, 1048000);
+    &&& r.pools@.dom() == s.pools@.dom()
+    &&& forall|k: PoolKey| k != pk_mel_sym() && k != pk_erg_sym() && s.pools@.contains_key(k) ==> #[trigger] r.pools@[k] == s.pools@[k]
+    &&& exists|mel: int, erg: int| #[trigger] right_fed(s.pools@[pk_mel_sym()], r.pools@[pk_mel_sym()], spec_tip909_fee_part(reward, a) as int, mel)
+            && #[trigger] right_fed(s.pools@[pk_erg_sym()], r.pools@[pk_erg_sym()], spec_tip909_erg_part(reward, a) as int, erg) && r.fee_pool.0 as int == s.fee_pool.0 + mel
+}
